@@ -189,6 +189,12 @@ pub struct Deques<K> {
     pub write_order: Deque<KeyDate<K>>,
 }
 
+impl<K> Default for Deques<K> {
+    #[verifier::external_body]
+    fn default() -> (r: Self)
+        ensures r.window@.len() == 0, r.probation@.len() == 0, r.protected@.len() == 0, r.write_order@.len() == 0
+    { unimplemented!() }
+}
 impl<K> Deques<K> {
     pub open spec fn others_same(&self, o: &Self) -> bool { self.window@ == o.window@ && self.protected@ == o.protected@ }
 
@@ -377,7 +383,14 @@ impl<K, V, S> CacheStore<K, V, S> {
     { unimplemented!() }
     #[verifier::external_body]
     pub fn clear(&mut self) ensures final(self)@ == Map::<KeyId, ValueEntry<K, V>>::empty() { unimplemented!() }
+    /// `HashMap::with_capacity_and_hasher`: an empty map; the capacity hint is unobservable through the map contract
+    #[verifier::external_body]
+    pub fn with_capacity_and_hasher(capacity: usize, hash_builder: S) -> (r: Self)
+        ensures r@ == Map::<KeyId, ValueEntry<K, V>>::empty()
+    { unimplemented!() }
 }
+/// in the source `CacheStore<K, V, S>` is `std::collections::HashMap<Rc<K>, ValueEntry<K, V>, S>`
+pub type HashMap<K, V, S> = CacheStore<K, V, S>;
 
 pub uninterp spec fn hspec<S>(s: S, k: KeyId) -> u64;
 
@@ -390,6 +403,23 @@ pub struct Clock { x: u64 }
 
 #[verifier::external_body]
 pub struct FrequencySketch { x: u64 }
+pub uninterp spec fn sketch_default() -> FrequencySketch;
+impl Default for FrequencySketch {
+    #[verifier::external_body]
+    fn default() -> (r: Self) ensures r == sketch_default() { unimplemented!() }
+}
+#[verifier::external_body]
+pub struct Policy { x: u64 }
+impl Policy {
+    pub uninterp spec fn sp_max_capacity(&self) -> Option<u64>;
+    pub uninterp spec fn sp_ttl(&self) -> Option<Duration>;
+    pub uninterp spec fn sp_tti(&self) -> Option<Duration>;
+    /// contract proved in the `config` unit on the real text of src/policy.rs
+    #[verifier::external_body]
+    pub fn new(max_capacity: Option<u64>, time_to_live: Option<Duration>, time_to_idle: Option<Duration>) -> (r: Policy)
+        ensures r.sp_max_capacity() == max_capacity, r.sp_ttl() == time_to_live, r.sp_tti() == time_to_idle
+    { unimplemented!() }
+}
 impl FrequencySketch {
     pub uninterp spec fn freq(&self, hash: u64) -> u8;
     pub uninterp spec fn incremented(&self, hash: u64) -> FrequencySketch;
@@ -1141,6 +1171,74 @@ where
         &&& (!hit ==> post.deques.probation@ == mid.deques.probation@)
         &&& (hit ==> post.deques.probation@ == moved_to_back(mid.deques.probation@, pos_of_key(mid.deques.probation@, k)))
     }
+
+//@@ FN file=src/unsync/cache.rs owner=Cache name=policy tags=C17
+    pub fn policy(&self) -> /*@+*/(r:/*@-*/ Policy/*@+*/)/*@-*/
+        ensures r.sp_max_capacity() == self.max_capacity, r.sp_ttl() == self.time_to_live, r.sp_tti() == self.time_to_idle //@ [C17]
+    {
+        Policy::new(self.max_capacity, self.time_to_live, self.time_to_idle)
+    }
+//@@ END
+
+//@@ FN file=src/unsync/cache.rs owner=Cache name=entry_count tags=C10
+    pub fn entry_count(&self) -> /*@+*/(r:/*@-*/ u64/*@+*/)/*@-*/
+        ensures r == self.entry_count //@ [C10]
+    {
+        self.entry_count
+    }
+//@@ END
+
+//@@ FN file=src/unsync/cache.rs owner=Cache name=weighted_size tags=C10
+    pub fn weighted_size(&self) -> /*@+*/(r:/*@-*/ u64/*@+*/)/*@-*/
+        ensures r == self.weighted_size //@ [C10]
+    {
+        self.weighted_size
+    }
+//@@ END
+
+//@@ FN file=src/unsync/cache.rs owner=Cache name=with_everything tags=C17
+    pub(crate) fn with_everything(
+        max_capacity: Option<u64>,
+        initial_capacity: Option<usize>,
+        build_hasher: S,
+        weigher: Option<Weigher<K, V>>,
+        time_to_live: Option<Duration>,
+        time_to_idle: Option<Duration>,
+    ) -> /*@+*/(r:/*@-*/ Self/*@+*/)/*@-*/
+        requires // the builder's 1000-year guard (Kani: ensure_expirations_or_panic) //@
+            time_to_live.is_some() ==> dur_ns(time_to_live.unwrap()) <= max_dur_ns(), //@
+            time_to_idle.is_some() ==> dur_ns(time_to_idle.unwrap()) <= max_dur_ns(), //@
+        ensures //@
+            // C17: every knob is stored exactly as given ...
+            r.max_capacity == max_capacity, r.time_to_live == time_to_live, r.time_to_idle == time_to_idle, //@ [C17]
+            r.weigher == weigher, r.build_hasher == build_hasher, r.expiration_clock.is_none(), //@ [C17]
+            // ... the cache starts empty and well formed, with the estimator off, whatever initial_capacity is
+            r.cache@ == Map::<KeyId, ValueEntry<K, V>>::empty(), r.deques.probation@.len() == 0, r.deques.write_order@.len() == 0, //@ [C17,C01]
+            r.entry_count == 0, r.weighted_size == 0, //@ [C10,C17]
+            r.frequency_sketch == sketch_default(), !r.frequency_sketch_enabled, //@ [C17,C14]
+            r.wf(), //@ [C10,C11,C08]
+    {
+        let cache = HashMap::with_capacity_and_hasher(
+            initial_capacity.unwrap_or_default(),
+            build_hasher.clone(),
+        );
+
+        Self {
+            max_capacity,
+            entry_count: 0,
+            weighted_size: 0,
+            cache,
+            build_hasher,
+            weigher,
+            deques: Default::default(),
+            frequency_sketch: Default::default(),
+            frequency_sketch_enabled: false,
+            time_to_live,
+            time_to_idle,
+            expiration_clock: None,
+        }
+    }
+//@@ END
 
     // ---------------- assumed (outside reach), contracts only ----------------
     /// the clock: `Instant::now()` or the mock clock
